@@ -122,7 +122,7 @@ pub struct Case {
     /// enlarge both pipes to 1 MiB first (the child can then exit with everything still unread)
     pub big_pipe: bool,
     pub timeout: Timeout,
-    /// 0 nothing, 1 stdin_null(), 2 stdin_text("in")
+    /// 0 nothing, 1 stdin_null(), 2 stdin_text("in"), 3 stdin_text(128 KiB) that the child never reads
     pub stdin: u8,
     /// when an over-cap capture is planned: keep running for 3 s after the last write
     pub hang: bool,
@@ -456,6 +456,10 @@ fn build(case: &Case, helper: &str) -> Model {
     match case.stdin {
         1 => src.push_str("c.stdin_null()\n"),
         2 => src.push_str("c.stdin_text(\"in\")\n"),
+        // 128 KiB of standard input that the helper never reads: more than a pipe buffer holds
+        3 => src.push_str(
+            "make big get \"0123456789abcdef\"\nmake bi get 0\njasi (bi small pass 13) start\nbig get big add big\nbi get bi add 1\nend\nc.stdin_text(big)\n",
+        ),
         _ => {}
     }
     if let (Some(t), false) = (timeout_ms, via_caps) {
@@ -1052,7 +1056,7 @@ fn case_strategy() -> impl Strategy<Value = Case> {
         (stream_strategy(), stream_strategy()),
         (prop::collection::vec(any::<bool>(), 0..6), prop::collection::vec(delay, 0..5)),
         (prop::option::weighted(0.15, 0u8..40), prop::sample::select(vec![0u8, 0, 0, 1, 5, 20, 40]), exit),
-        (prop::bool::weighted(0.3), timeout_strategy(), 0u8..3, prop::bool::weighted(0.3)),
+        (prop::bool::weighted(0.3), timeout_strategy(), 0u8..4, prop::bool::weighted(0.3)),
     )
         .prop_map(
             |(
